@@ -7,10 +7,11 @@ PID = "C18"
 LEAN_MODULE = "NiVerif.Props.C18"
 NAMESPACE = "Props.C18"
 DRIVER = "drivers/C18.lean"
-GEN_MODULES = []
-EXTRA_LEAN_MODULES = ["NiVerif.Model.Vector"]
+GEN_MODULES = ["Vector"]
+EXTRA_LEAN_MODULES = ["NiVerif.Model.Vector", "NiVerif.Model.VectorArgs"]
 THEOREMS = ["ctor_items", "ctor_rejects_mixed", "setItem_spec", "insert_spec", "mem_scatter", "setSlice_spec", "delete_keeps",
-            "extend_spec", "remove_keeps", "type_inv_step", "type_inv", "eq_spec"]
+            "extend_spec", "remove_keeps", "type_inv_step", "type_inv", "eq_spec",
+            "gen_setitem_int_eq_model", "gen_setitem_slice_eq_model", "gen_setitem_slice_nonscalar", "gen_setitem_slice_refuses", "gen_insert_eq_model", "gen_delitem_eq_model", "gen_delslice_eq_model"]
 RULE = ("Vectors built from lists, tuples, ranges, generators and other one-shot iterators of the four scalar types (incl. "
         "bool-in-int mixtures and offending items at every position), then seeded operation sequences (int and slice "
         "assignment with re-iterable and one-shot replacement iterables, deletion, insert, append, extend, +=, pop, remove, "
@@ -126,6 +127,70 @@ def run(ctx):
                         if not (r[0] == "err" and r[1] == "TypeError") or stored:
                             ctx.violation(what="items that are not instances of the value type were accepted", target=TYPES[tt].__name__, items=str(SAMPLE[st_]), container=cname, op=opn,
                                           observed=(show(r)[:120] + f" -> {got}"), required="TypeError, nothing of the wrong type stored")
+    # ---- the argument universe of the generated methods (tier T13, Model/VectorArgs.lean) against real objects: what Python can
+    #      observe about an argument of each kind (Iterable? str? instance of which scalar type? what list() does) ---------------------
+    import collections, enum as _enum
+    from collections.abc import Iterable
+    import numpy as _np
+
+    class _IE(_enum.IntEnum):
+        A = 1
+
+    def _gen2():
+        yield 1
+        yield None
+    arg_objects = [("scalar b", True), ("scalar b", False), ("scalar i", 3), ("scalar i", -1), ("scalar i", 10 ** 30), ("scalar i", _IE.A),
+                   ("scalar f", 2.5), ("scalar f", float("nan")), ("scalar f", _np.float64(1.5)), ("scalar s", "ab"), ("scalar s", _np.str_("xy")),
+                   ("iterable -", [1, None]), ("iterable -", (1, None)), ("iterable -", iter([1, None])), ("iterable -", _gen2()), ("iterable -", range(2)),
+                   ("iterable -", {1: 0, 2: 0}), ("iterable -", {1, 2}), ("iterable -", b"ab"), ("iterable -", bytearray(b"ab")), ("iterable -", _np.array([1, 2])),
+                   ("iterable -", Vector([1, 2])), ("iterable -", collections.deque([1, 2])),
+                   ("other -", None), ("other -", object()), ("other -", 5j), ("other -", Ellipsis), ("other -", len), ("other -", _np.int64(3))]
+    k_lines, k_want = [], []
+    for tag, x in arg_objects:
+        tf = lambda b_: "t" if b_ else "f"
+        try:
+            lst = "ok" + str(len(list(x)))
+        except TypeError:
+            lst = "TypeError"
+        k_lines.append("vk " + tag)
+        k_want.append(f"iter={tf(isinstance(x, Iterable))} str={tf(isinstance(x, str))} inst={tf(isinstance(x, bool))}{tf(isinstance(x, int))}{tf(isinstance(x, float))}{tf(isinstance(x, str))} "
+                      f"list={lst} scalar={tf(isinstance(x, (bool, int, float, str)))}")
+    k_res = ctx.model(k_lines)
+    for (tag, x), line, want, got in zip(arg_objects, k_lines, k_want, k_res or []):
+        ctx.case(("arg-kind", tag, type(x).__name__))
+        ctx.count("argument kind", tag.split()[0])
+        if got != want:
+            ctx.mismatch(stream="argument kinds (T13)", request=line, object=f"{type(x).__name__}: {x!r}"[:80], model_says=got, code_says=want)
+    # ---- every small slice assignment and slice deletion, against the list doing the same (extended slices with replacements of every
+    #      length, the empty one included: a list refuses a size mismatch with ValueError and stays as it was) ---------------------------
+    bounds = [None, -5, -2, -1, 0, 1, 2, 5]
+    n_slice = 0
+    for ln in range(0, 5):
+        base = [10 * k + 1 for k in range(ln)]
+        for st_ in (None, 1, 2, 3, -1, -2, -3):
+            for a_ in bounds:
+                for b_ in bounds:
+                    sl = slice(a_, b_, st_)
+                    for rl in range(0, 4):
+                        repl = [100 + k for k in range(rl)]
+                        for one_shot in (False, True):
+                            v = Vector(list(base), value_type=int) if not base else Vector(list(base))
+                            l = list(base)
+                            rv = outcome(lambda: v.__setitem__(sl, iter(repl) if one_shot else list(repl)))
+                            rl_ = outcome(lambda: l.__setitem__(sl, iter(repl) if one_shot else list(repl)))
+                            n_slice += 1
+                            if (rv[0], rv[1] if rv[0] == "err" else None) != (rl_[0], rl_[1] if rl_[0] == "err" else None) or list(v) != l:
+                                ctx.violation(what="slice assignment differs from the list's", start=str(base), slice=f"[{a_}:{b_}:{st_}]", replacement=str(repl),
+                                              one_shot=one_shot, observed=f"{show(rv)[:60]} -> {list(v)}", required=f"{show(rl_)[:60]} -> {l}")
+                    v = Vector(list(base), value_type=int) if not base else Vector(list(base))
+                    l = list(base)
+                    rv, rl_ = outcome(lambda: v.__delitem__(sl)), outcome(lambda: l.__delitem__(sl))
+                    n_slice += 1
+                    if rv[0] != rl_[0] or list(v) != l:
+                        ctx.violation(what="slice deletion differs from the list's", start=str(base), slice=f"[{a_}:{b_}:{st_}]", observed=f"{show(rv)[:60]} -> {list(v)}",
+                                      required=f"{show(rl_)[:60]} -> {l}")
+    ctx.case(("small-slices", n_slice))
+    ctx.extra["small_slice_cases"] = n_slice
     # ---- empty vectors: whatever is passed as value_type, every element that is ever stored is a bool, int, float or str and all
     #      elements are instances of ONE of those types (the property's "always an instance of the vector's value type") -----------
     import enum, fractions, decimal as _dec
